@@ -22,7 +22,7 @@ lines = [l.strip() for l in open(confirm)] if os.path.exists(confirm) else []
 viol = []
 if os.path.exists(checklog):
     for l in open(checklog):
-        if l[:4] in ('  P ', '  L ', '  D ', '  B '):
+        if l[:4] in ('  P ', '  L ', '  D ', '  B ', '  S '):
             viol.append(l.strip()[:400])
         if l.startswith('C11:') or l.startswith('C18:'):
             summary = l.strip()
